@@ -1,0 +1,25 @@
+//go:build verif
+
+package core
+
+import "github.com/bluenviron/mediamtx/internal/conf"
+
+// verifReloadConfEnter, when set, is called at the beginning of path.reloadConf (the
+// goroutine spawned by pathManager.doReloadConf); it may block, which lets a verification
+// harness decide the order in which configurations reach the path.
+var verifReloadConfEnter func(pa *path, newConf *conf.Path)
+
+// verifReloadConfExit, when set, is called when path.reloadConf returns.
+var verifReloadConfExit func(pa *path, newConf *conf.Path)
+
+func verifOnReloadConfEnter(pa *path, newConf *conf.Path) {
+	if f := verifReloadConfEnter; f != nil {
+		f(pa, newConf)
+	}
+}
+
+func verifOnReloadConfExit(pa *path, newConf *conf.Path) {
+	if f := verifReloadConfExit; f != nil {
+		f(pa, newConf)
+	}
+}
